@@ -62,9 +62,9 @@ Section Model.
        b_wavelength := b_wavelength b; b_waist := b_waist b |}.
   Definition set_waist (b : beam num) (w : num) : beam num :=
     {| b_pol := b_pol b; b_phi := b_phi b; b_theta := b_theta b; b_wavelength := b_wavelength b; b_waist := w |}.
-  (* Beam::set_theta_external: the sign of the external angle is dropped (external.abs()) *)
+  (* Beam::set_theta_external: the signed external angle goes to the Snell inverse (which mirrors a negative angle) *)
   Definition set_theta_external (b : beam num) (external : num) (cs : crystal_setup num) : outcome (beam num) :=
-    match o_snell_inv K b (nabs o external) cs with
+    match o_snell_inv K b external cs with
     | None => Panic SiteNelderMeadUnwrap
     | Some th => Ok (set_angles b (b_phi b) th)
     end.
